@@ -162,6 +162,7 @@ func init() {
 		"(net/http.Header).Del": hHeaderSet,
 		"net/http.Error":        hHTTPError,
 		"net/http.NotFound":     hHTTPError,
+		"net/http.Redirect":     hHTTPError,
 		"(time.Time).Format": func(e *Exec, st *State, fv FuncV, a []Value, cc *ssa.CallCommon) Value {
 			e.res.noteOnce("placeholder: Time.Format returns \"<time>\"")
 			return e.strConst("<time>")
@@ -1299,11 +1300,14 @@ func hHTTPError(e *Exec, st *State, fv FuncV, a []Value, cc *ssa.CallCommon) Val
 	if fv.fn.Name() == "Error" {
 		code = a[2]
 	}
+	if fv.fn.Name() == "Redirect" {
+		code = a[3]
+	}
 	m := e.prog.LookupMethod(iv.t, nil, "WriteHeader")
 	if m == nil {
 		panic(e.abort("ResponseWriter without WriteHeader"))
 	}
-	e.res.noteOnce("model: http.Error/NotFound call WriteHeader(code) on the ResponseWriter")
+	e.res.noteOnce("model: http.Error/NotFound/Redirect call WriteHeader(code) on the ResponseWriter")
 	e.pushCall(st, FuncV{fn: m}, []Value{iv.v, code}, nil)
 	return pushedFrame{}
 }
